@@ -2,7 +2,9 @@ package main
 
 import (
 	"fmt"
+	"github.com/bolkedebruin/rdpgw/cmd/rdpgw/protocol"
 	"strings"
+	"verif/internal/tsgu"
 
 	"verif/shim/vsched"
 )
@@ -160,6 +162,92 @@ func c07Pairing(rep *Report) {
 	}
 }
 
+// c07Registry: histories of tunnels coming and going, one after the other, with the registry of live tunnels
+// observed after every step: it holds exactly the live tunnels, each with its own user, connection id and phase
+// (open A, open B, close A, open C, close B, close C and the other orders of closing).
+func c07Registry(rep *Report) {
+	type step struct {
+		op, id string
+	}
+	hists := [][]step{
+		{{"open", "A"}, {"open", "B"}, {"close", "A"}, {"open", "C"}, {"close", "B"}, {"close", "C"}},
+		{{"open", "A"}, {"open", "B"}, {"close", "A"}, {"open", "C"}, {"close", "C"}, {"close", "B"}},
+		{{"open", "A"}, {"open", "B"}, {"open", "C"}, {"close", "B"}, {"open", "D"}, {"close", "A"}, {"close", "D"}, {"close", "C"}},
+		{{"open", "A"}, {"close", "A"}, {"open", "B"}, {"open", "C"}, {"close", "B"}, {"open", "D"}, {"close", "C"}, {"close", "D"}},
+	}
+	for hi, hist := range hists {
+		for _, kinds := range [][]string{{"ws"}, {"legacy"}, {"ws", "legacy"}} {
+			var bad string
+			x := vsched.Run(nil, 60000, false, nil, func() {
+				w := NewWorld()
+				w.Accept = func(string) bool { return true }
+				gw := NewGateway(GwCfg{TokenAuth: true, CookieCheck: TableCookie, HostSelection: "roundrobin", Hosts: []string{"ha.example:3389", "hb.example:3389", "hc.example:3389", "hd.example:3389"}, VerifyIP: true})
+				h := handlerOf(gw)
+				live := map[string]*TunnelClient{}
+				n := 0
+				for si, st := range hist {
+					id := st.id
+					host := "h" + strings.ToLower(id) + ".example"
+					if st.op == "open" {
+						kind := kinds[n%len(kinds)]
+						n++
+						ident := NewIdentity("", "10.0.0."+fmt.Sprint(1+int(id[0]-'A')), "10.0.0."+fmt.Sprint(1+int(id[0]-'A'))+":40000")
+						c, ok := w.OpenTunnel(kind, h, gw, "conn-"+id, "10.0.0."+fmt.Sprint(1+int(id[0]-'A'))+":40000", ident, nil)
+						if !ok {
+							bad = fmt.Sprintf("step %d: tunnel %s not opened", si, id)
+							return
+						}
+						for _, p := range [][]byte{tsgu.Handshake(1, 0, 0, tsgu.ExtAuthPAA), tsgu.TunnelCreate("ok|"+host+":3389|10.0.0."+fmt.Sprint(1+int(id[0]-'A'))+"|user-"+id, true), tsgu.TunnelAuth("pc"), tsgu.ChannelCreate(host, 3389)} {
+							c.SendSegment(p)
+							vsched.WaitIdle()
+						}
+						live[id] = c
+					} else {
+						live[id].CloseClient()
+						delete(live, id)
+						vsched.WaitIdle()
+					}
+					// the registry holds exactly the live tunnels
+					reg := protocol.VerifConnections()
+					seen := map[string]bool{}
+					for key, sn := range reg {
+						id := strings.TrimPrefix(sn.RDGId, "conn-")
+						if live[id] == nil {
+							bad = fmt.Sprintf("after step %d (%s %s): registry entry %s belongs to tunnel %s, which is not live", si, st.op, st.id, key, sn.RDGId)
+							return
+						}
+						if seen[id] {
+							bad = fmt.Sprintf("after step %d (%s %s): tunnel %s registered twice", si, st.op, st.id, sn.RDGId)
+							return
+						}
+						seen[id] = true
+						if sn.UserName != "user-"+id || sn.TargetServer != "h"+strings.ToLower(id)+".example:3389" || sn.Id != key {
+							bad = fmt.Sprintf("after step %d (%s %s): entry %s of tunnel %s has user %q target %q id %q", si, st.op, st.id, key, sn.RDGId, sn.UserName, sn.TargetServer, sn.Id)
+							return
+						}
+					}
+					for id := range live {
+						if !seen[id] {
+							bad = fmt.Sprintf("after step %d (%s %s): live tunnel conn-%s is not in the registry (%d entries)", si, st.op, st.id, id, len(reg))
+							return
+						}
+					}
+				}
+			})
+			rep.add("executions", 1)
+			rep.add("transitions", int64(x.Steps))
+			for _, p := range x.Panics() {
+				bad = "panic: " + p.Value
+			}
+			x.Finish()
+			rep.outcome(fmt.Sprintf("registry history %d %v: %v", hi, kinds, bad == ""))
+			if bad != "" {
+				rep.violate("C07/registry-does-not-hold-exactly-the-live-tunnels", fmt.Sprintf("history %d transports %v: %s", hi, kinds, bad), map[string]any{"noreplay": true})
+			}
+		}
+	}
+}
+
 func c07(env *Env, rep *Report) {
 	scs := c07Scenarios(env.thorough())
 	var names []string
@@ -167,7 +255,7 @@ func c07(env *Env, rep *Report) {
 		names = append(names, s.Name)
 	}
 	rep.Rule = "two (thorough: also three) tunnels with distinct connection ids, users, token hosts, client addresses and backends on transports {ws+ws, ws+legacy, legacy+legacy}, each doing setup, two tagged data packets, receiving two tagged host chunks, then close or abrupt drop (" + strings.Join(names, ", ") + "); every schedule of all clients, handlers, relay goroutines and backends up to the deviation bound. " +
-		"Oracle (differential non-interference): in every schedule each tunnel's observation (responses, bytes at its client, bytes at its host, dials) equals the observation of that tunnel run alone, and no tagged byte of one tunnel shows up in another. Plus the pairing scenario: a legacy RDG_IN_DATA with another connection id never attaches to an existing RDG_OUT_DATA. distinct_nontrivial = distinct per-schedule observations."
+		"Oracle (differential non-interference): in every schedule each tunnel's observation (responses, bytes at its client, bytes at its host, dials) equals the observation of that tunnel run alone, and no tagged byte of one tunnel shows up in another. Plus histories of tunnels coming and going one after the other (4 histories x 3 transport mixes) with the registry of live tunnels observed after every step: exactly the live tunnels, each with its own user, target and id. Plus the pairing scenario: a legacy RDG_IN_DATA with another connection id never attaches to an existing RDG_OUT_DATA. distinct_nontrivial = distinct per-schedule observations."
 	rep.Assumptions = append(rep.Assumptions, "2-3 tunnels (64 are out of reach of exhaustive interleaving; nothing in the gateway depends on the count)", "deviation bounding: every departure from the default schedule costs 1")
 	bound := 2
 	if env.thorough() {
@@ -204,6 +292,7 @@ func c07(env *Env, rep *Report) {
 	}
 	if env.Shard == 0 {
 		c07Pairing(rep)
+		c07Registry(rep)
 	}
 	for _, sc := range scs {
 		if env.Part != "" && !strings.Contains(sc.Name, env.Part) {
